@@ -131,6 +131,9 @@ def menagerieDecls : List (String × Methods × String) := [
   ("ZInt",      { isZero := .value },   "int"),
   ("ZStr",      { isZero := .value },   "string"),
   ("TimeLike",  { isZero := .value },   "struct{wall:uint64;ext:int64}"),
+  ("ZInts",     { isZero := .value },   "[]int"),
+  ("ZMapP",     { isZero := .pointer }, "map[string]int"),
+  ("ZArr",      { isZero := .value },   "[2]int"),
   ("NBool", {}, "bool"), ("NStr", {}, "string"), ("NInt", {}, "int"), ("NU8", {}, "uint8"),
   ("NF32", {}, "float32"), ("NInts", {}, "[]int"), ("NBytes", {}, "[]uint8"), ("NStrs", {}, "[]string"),
   ("NAnys", {}, "[]any"), ("NArr", {}, "[2]int"), ("NMap", {}, "map[string]int"),
@@ -149,7 +152,16 @@ def menagerieDecls : List (String × Methods × String) := [
   ("Ifc",   {}, "struct{A:any;B:any`b,omitempty`;C:any`,inline`}"),
   ("Mixed", {}, "struct{M:map[string]any;L:[]any}"),
   ("N",  {}, "struct{V:int;Next:*@N}"),
-  ("NI", {}, "struct{V:int;Next:any}")
+  ("NI", {}, "struct{V:int;Next:any}"),
+  ("Tree", {}, "struct{V:int;Kids:[]@Tree;M:map[string]*@Tree}"),
+  ("MA", {}, "struct{V:int;B:*@MB}"),
+  ("MB", {}, "struct{S:string;A:*@MA;As:[]@MA}"),
+  ("NIn", {}, "struct{V:int;Next:*@NIn`,inline`}"),
+  ("NII", {}, "struct{V:int;Next:any`,inline`}"),
+  ("NO", {}, "struct{V:int;Next:*@NO`,omitempty`}"),
+  ("NBad", {}, "struct{V:int;Next:*@NBad;C:chan:int}"),
+  ("L", {}, "[]@L"),
+  ("MM", {}, "map[string]@MM")
 ]
 
 /-- types with a user fold function registered through `gotype.Folders` (harness: UserFolders) -/
@@ -627,6 +639,13 @@ def customIsZero : String → GoVal → Option Bool
   | "ZInt", .int n => some (n == 0)
   | "ZStr", .str s => some (s == strBytes "zero")
   | "TimeLike", .struct [.int w, .int e] => some (w == 0 && e == 0)
+  | "ZInts", .nilSlice => some true
+  | "ZInts", .slice [] => some true
+  | "ZInts", .slice (.int x :: _) => some (x == 0)
+  | "ZMapP", .nilPtr => some true
+  | "ZMapP", .ptr .nilMap => some false
+  | "ZMapP", .ptr (.map ms) => some (ms.length == 1)
+  | "ZArr", .array [.int a, .int b] => some (a == 0 && b == 0)
   | _, _ => none
 
 end SF.Gotype
